@@ -905,10 +905,14 @@ def bool_branch(fn, bb):
         return None
     tg = dict((v, b) for v, b in t["targets"])
     if 0 in tg and len(tg) == 1:
-        return fn.op_origin(t["discr"]), t["otherwise"], tg[0]
-    if 1 in tg and len(tg) == 1:
-        return fn.op_origin(t["discr"]), tg[1], t["otherwise"]
-    return None
+        e, tt, ft = fn.op_origin(t["discr"]), t["otherwise"], tg[0]
+    elif 1 in tg and len(tg) == 1:
+        e, tt, ft = fn.op_origin(t["discr"]), tg[1], t["otherwise"]
+    else:
+        return None
+    while isinstance(e, tuple) and e and e[0] == "unop" and e[1] == "Not":
+        e, tt, ft = e[2], ft, tt          # branching on !x is branching on x with the edges swapped
+    return e, tt, ft
 
 
 def bool_branches(fn):
@@ -918,6 +922,19 @@ def bool_branches(fn):
         if r:
             out.append((b,) + r)
     return out
+
+
+TRY_MAP = {"std::option::Option": {"Continue": "Some", "Break": "None"}, "std::result::Result": {"Continue": "Ok", "Break": "Err"}}
+
+
+def try_branch_subject(e):
+    """`x?` lowers to match Try::branch(x) { Continue(v) => v, Break(r) => return from_residual(r) }:
+    (x, variant map) when e is such a call on Option/Result"""
+    if isinstance(e, tuple) and e and e[0] == "call" and e[1].endswith("::branch") and "std::ops::Try" in e[1] and e[2]:
+        for ty, mp in TRY_MAP.items():
+            if ty in e[1]:
+                return e[2][0], mp
+    return None
 
 
 def enum_branch(fn, bb):
@@ -940,7 +957,13 @@ def enum_branch(fn, bb):
     for v, b in t["targets"]:
         tg[vmap.get(v, str(v))] = b
     rest = [n for v, n in rv["variants"] if n not in tg]
-    return fn.place_origin(rv["place"]), tg, t["otherwise"], rest
+    scrut = fn.place_origin(rv["place"])
+    tb = try_branch_subject(scrut)
+    if tb:
+        scrut, mp = tb
+        tg = {mp.get(n, n): b for n, b in tg.items()}
+        rest = [mp.get(n, n) for n in rest]
+    return scrut, tg, t["otherwise"], rest
 
 
 def variant_edges(fn, bb):
@@ -1102,7 +1125,14 @@ def path_return(fn, path, atoms=None):
     if last is None:
         return ("unit",)
     if last[0] == "call":
-        return fn.origin_call(last[1], last[2])
+        c = fn.origin_call(last[1], last[2])
+        if c[0] == "call" and "FromResidual" in c[1] and c[1].endswith("::from_residual"):
+            # early return of `?`: None for Option, Err(..) for Result
+            if "std::option::Option" in c[1]:
+                return ("agg", "std::option::Option", "None", ())
+            if "std::result::Result" in c[1]:
+                return ("agg", "std::result::Result", "Err", (("0", c[2][0] if c[2] else ("unknown", "residual")),))
+        return c
     e = fn.origin_rvalue(last[3])
     if e[0] == "agg":
         return e
